@@ -5,6 +5,7 @@ import (
 	"go/constant"
 	"go/token"
 	"go/types"
+	"strings"
 
 	"golang.org/x/tools/go/ssa"
 
@@ -35,6 +36,8 @@ func runC06(l *core.Ledger) {
 	l.Rule("C06-P3", "one-way calls wait only for send confirmations: one receive per loop iteration bounded by the sent counter (Multicast) / one receive (Unicast); none reachable on the noSendWaiting edge; Unicast registers no router there")
 	l.Rule("C06-P4", "handlers of one-way methods ignore the reply channel and contain no SendMessage (generated + template)")
 	l.Rule("C06-P5", "send confirmation: a deferred closure registered in sendMsg's entry block, guarded only by waitForSend = callType != nil && !noSendWaiting; who-may-write callOptions.callType = getCallOptions")
+	l.Rule("C06-P7", "a reachable node gets the message: the sender tries to (re)connect for every request while the node is not connected, and that attempt is real (C10-N1 re-run)")
+	l.Rule("C06-P8", "gRPC does not replay the node stream: the dial options the library itself adds configure no service config with a retry or hedging policy (a transparently retried stream re-sends the buffered one-way messages)")
 	l.Rule("C06-P6", "generated one-way stubs forward in, opts... and wrap the per-node function as f(req.(*In), nid)")
 
 	eps := findEntryPoints(l, r, "C06-P1")
@@ -45,6 +48,8 @@ func runC06(l *core.Ledger) {
 		c06P1(l, ep)
 	}
 	l.With(map[string]string{"C02-T4": "C06-P2"}, func() { c02T4(l, r) })
+	l.With(map[string]string{"C10-N1": "C06-P7"}, func() { c10N1(l, r) })
+	c06P8(l, r)
 	l.With(map[string]string{"C03-F3": "C06-P2"}, func() { c03F2F3(l, r) })
 	c06P3(l, eps)
 	c06P4(l)
@@ -528,4 +533,48 @@ func (w *boolWalker) run(fn *ssa.Function, target ssa.Instruction, depth int) (r
 		b = next
 	}
 	return false, false, false
+}
+
+// c06P8: no transparent retry of the node stream. Every constant string that
+// the runtime package hands to grpc.WithDefaultServiceConfig is inspected.
+func c06P8(l *core.Ledger, r *rt) {
+	n := 0
+	for _, f := range allFuncs(l.Prog, r.pkg) {
+		f := f
+		sx.AllInstrs(f, func(_ sx.Node, in ssa.Instruction) {
+			cc := sx.CallOf(in)
+			if cc == nil {
+				return
+			}
+			name := sx.StaticCalleeName(cc)
+			switch name {
+			case "google.golang.org/grpc.WithDefaultServiceConfig":
+				n++
+				key := fmt.Sprintf("%s/service-config%d", fnKey(f), n)
+				txt, known := "", true
+				for _, o := range sx.Origins(cc.Args[0]) {
+					k, isC := o.V.(*ssa.Const)
+					if o.Kind != sx.KConst || !isC || k.Value == nil || k.Value.Kind() != constant.String {
+						known = false
+						continue
+					}
+					txt += constant.StringVal(k.Value)
+				}
+				switch {
+				case !known:
+					l.Unknown("C06-P8", key, sx.PosOf(in), "the default service config is not a constant string")
+				case strings.Contains(txt, "retryPolicy") || strings.Contains(txt, "hedgingPolicy"):
+					l.Bad("C06-P8", key, sx.PosOf(in), "the library configures a gRPC retry/hedging policy: a NodeStream that has received no response headers yet (only one-way traffic so far) is replayed on another attempt, and every buffered unicast/multicast message is delivered twice")
+				default:
+					l.OK("C06-P8", key, sx.PosOf(in), "no retry or hedging policy")
+				}
+			case "google.golang.org/grpc.WithMaxCallAttempts":
+				n++
+				l.Bad("C06-P8", fmt.Sprintf("%s/max-attempts%d", fnKey(f), n), sx.PosOf(in), "the library raises gRPC's call attempts: streams may be replayed")
+			}
+		})
+	}
+	if n == 0 {
+		l.OK("C06-P8", "gorums/dial-options", token.NoPos, "the library adds no service config to its dial options")
+	}
 }
